@@ -44,15 +44,31 @@ def run_real(ts, mu, kw):
         return dict(ok=False, exc=type(e).__name__, msg=str(e)[:200])
 
 
+def independent_mutation_edges(ts):
+    """the edge above every mutation, computed with tskit alone: the edge whose child is the mutation's node in the tree at the
+    site's position, -1 when the node is a root (or isolated) there.  Nothing of tsdate's sweep is trusted here."""
+    out = np.full(ts.num_mutations, -1, dtype=np.int64)
+    pos = ts.sites_position[ts.mutations_site]
+    node = ts.mutations_node
+    for tree in ts.trees():
+        l, r = tree.interval
+        for m in np.where((pos >= l) & (pos < r))[0]:
+            out[m] = tree.edge(int(node[m]))
+    return out
+
+
 def model_inputs(ts, mu, kw):
+    """the edge statistics are property C24's (`count_mutations`, taken as data); the edge of every mutation is computed
+    independently, so a wrong edge map of the implementation shows up as a model/implementation difference"""
     from tsdate.rescaling import count_mutations
-    lik, medge = count_mutations(ts, size_biased=not kw["match_segregating_sites"])
+    lik, medge_impl = count_mutations(ts, size_biased=not kw["match_segregating_sites"])
     lik = lik.copy()
     lik[:, 1] *= mu
     fixed = np.zeros(ts.num_nodes, dtype=bool)
     fixed[list(ts.samples())] = True
     return dict(times=ts.nodes_time.astype(float), lik=np.ascontiguousarray(lik), parent=ts.edges_parent.astype(np.int32),
-                child=ts.edges_child.astype(np.int32), fixed=fixed, medge=medge)
+                child=ts.edges_child.astype(np.int32), fixed=fixed, medge=independent_mutation_edges(ts),
+                medge_impl=np.asarray(medge_impl, dtype=np.int64))
 
 
 def enc_iter(i, c, kw, mnodes, num="f"):
@@ -119,17 +135,57 @@ def check_output(ts, out, replay):
     return bad
 
 
+def make_forest(rng, ts):
+    """cut the edges above one or two nodes from some position rightwards (clades missing on the right: multi-root trees there),
+    then simplify so that the input is a simplified tree sequence again"""
+    import tskit
+    tables = ts.dump_tables()
+    L = ts.sequence_length
+    for _ in range(int(rng.integers(1, 3))):
+        cand = np.unique(tables.edges.child)
+        if cand.size == 0:
+            break
+        c = int(rng.choice(cand))
+        x = float(np.floor(rng.uniform(0.2, 0.8) * L))
+        rows = list(tables.edges)
+        tables.edges.clear()
+        for e in rows:
+            if e.child == c and e.left >= x:
+                continue
+            right = min(e.right, x) if (e.child == c and e.right > x) else e.right
+            if e.left < right:
+                tables.edges.add_row(e.left, right, e.parent, e.child)
+    tables.sort()
+    tables.build_index()
+    tables.compute_mutation_parents()
+    if not np.all(np.isnan(tables.mutations.time)):
+        tables.mutations.time = np.full(tables.mutations.num_rows, tskit.UNKNOWN_TIME)
+    try:
+        tables.simplify(filter_sites=False)
+        out = tables.tree_sequence()
+    except Exception:  # noqa: BLE001
+        return ts
+    return out if out.num_edges > 0 and np.all(out.nodes_time[list(out.samples())] == 0) else ts
+
+
 def gen_case(rng):
-    fam = str(rng.choice(["plain", "plain", "polytomy", "rootmuts", "scaled", "sparse", "dated-badly"]))
+    fam = str(rng.choice(["plain", "polytomy", "rootmuts", "local-roots", "forest", "scaled", "sparse", "dated-badly"]))
     kw = dict(num_intervals=int(rng.choice([1, 2, 5, 20, 100, 1000])), num_iterations=int(rng.choice([0, 1, 3, 10])),
               match_segregating_sites=bool(rng.random() < 0.4))
     mpe = float(rng.choice([1, 3, 8]))
     if fam == "sparse":
         mpe = float(rng.choice([0.1, 0.3]))
-    ts, info = gen.gen_ts(rng, n=int(rng.integers(2, 9)), trees=int(rng.choice([1, 2, 3, 5, 10])), muts_per_edge=mpe,
+    many = fam in ("local-roots", "forest")
+    ts, info = gen.gen_ts(rng, n=int(rng.integers(3 if many else 2, 9)),
+                          trees=int(rng.choice([3, 5, 10, 20] if many else [1, 2, 3, 5, 10])), muts_per_edge=mpe,
                           polytomy=1.0 if fam == "polytomy" else 0.0, rootmuts=1.0 if fam == "rootmuts" else 0.0,
                           ploidy=int(rng.choice([1, 1, 2])))
     mu = info["mu"]
+    if fam == "forest":
+        ts = make_forest(rng, ts)
+    if many:
+        # mutations above *local* roots: nodes that are roots (or isolated) in the tree at the site but children further left/right
+        ts, _ = gen.add_root_mutations(ts, rng, k=int(rng.integers(4, 10)))
     if fam == "scaled":
         c = float(rng.choice([1e-6, 1e-3, 1e3, 1e6]))
         ts = gen.scale_times(ts, c)
@@ -149,7 +205,7 @@ def run(ctx):
     import tskit
     res = Result()
     import tsdate  # noqa: F401
-    stats = dict(families={}, outcomes={}, options={}, empty_interval_cases=0, rounding_collapse=0, ancient_rejected=0,
+    stats = dict(families={}, outcomes={}, options={}, empty_interval_cases=0, rounding_collapse=0, mutations_above_local_roots=0, ancient_rejected=0,
                  hyp_fixed_len=0, mutations_checked=0, root_mutations=0)
     rng = ctx.rng(1)
     cases = []
@@ -159,6 +215,8 @@ def run(ctx):
         if ts.num_mutations == 0 or ts.num_edges == 0:
             continue
         cases.append(dict(ts=ts, mu=mu, kw=kw, fam=fam))
+        if fam in ("local-roots", "forest", "rootmuts"):      # both settings of match_segregating_sites on the same input
+            cases.append(dict(ts=ts, mu=mu, kw=dict(kw, match_segregating_sites=not kw["match_segregating_sites"]), fam=fam))
     batch = rc.Batch()
     for c in cases:
         c["real"] = run_real(c["ts"], c["mu"], c["kw"])
@@ -201,6 +259,14 @@ def run(ctx):
         stats["outcomes"]["returned"] = stats["outcomes"].get("returned", 0) + 1
         out = r["out"]
         stats["empty_interval_cases"] += int(bool(empty_interval(c["inp"], kw)))      # inputs on which the merging step matters
+        # mutations above a node that is a root in its own tree but has a parent edge somewhere else
+        has_parent_somewhere = np.isin(ts.mutations_node, ts.edges_child)
+        stats["mutations_above_local_roots"] += int(np.sum((c["inp"]["medge"] < 0) & has_parent_somewhere))
+        if not np.array_equal(c["inp"]["medge"], c["inp"]["medge_impl"]):
+            k = int(np.sum(c["inp"]["medge"] != c["inp"]["medge_impl"]))
+            res.corr_failures.append(Violation(
+                "mutation-edge-map-differs", f"count_mutations maps {k} mutation(s) to another edge than the tree at the site's position "
+                f"does (match_segregating_sites={kw['match_segregating_sites']})", replay, "B"))
         # B: whole-function correspondence
         if not isinstance(m, dict):
             res.corr_failures.append(Violation("standalone-assert-differs", f"the model answers {m}, rescale_tree_sequence returns", replay, "B"))
@@ -237,7 +303,8 @@ def run(ctx):
         else:
             stats["ancient_rejected"] += 1
     res.rule = ("msprime tree sequences with all samples at time 0 (haploid/diploid; 1-10 trees; families: plain, polytomies, "
-                "mutations above roots, times scaled by 1e-6..1e6, sparse mutations, badly calibrated node times) x num_intervals "
+                "mutations above roots, mutations above local roots of recombining tree sequences, multi-root forests (clades missing "
+                "on the right; both match_segregating_sites values on the same input), times scaled by 1e-6..1e6, sparse mutations, badly calibrated node times) x num_intervals "
                 "1..1000 x num_iterations 0..10 x match_segregating_sites; whole function vs Lean model bit-for-bit, statement checked "
                 "on every returned tree sequence. Non-trivial = at least one iteration and some node time changed; distinct by "
                 "canonical hash of (options, input times).")
